@@ -2,6 +2,10 @@ import PysphVerif.Lemmas.Riemann
 import PysphVerif.Lemmas.RiemannHllc
 import PysphVerif.Lemmas.RiemannDucowicz
 import PysphVerif.Lemmas.RiemannExact
+import PysphVerif.Lemmas.RiemannScale
+import PysphVerif.Lemmas.RiemannEqual
+import Mathlib.Analysis.Real.Sqrt
+import Mathlib.Analysis.SpecialFunctions.Pow.Real
 /-!
 # C15 — Riemann solvers are reflection-symmetric; contact solvers are admissible
 
@@ -397,14 +401,19 @@ theorem equal_states_hllc (hs : SqrtPos sqrt) (hrho : 0 < rho) (hp : 0 < p) (hg 
 /-! ## `ducowicz`
 
 Cases A and B are mirror images of themselves, case C is the mirror image of
-case D, but D is taken unguarded while C is guarded (DESIGN §7 F9).  Reflection
-symmetry therefore holds exactly when, once A and B have failed, exactly one
-of the guard of C and the (untested) guard of D holds on the data at hand. -/
+case D, but D is taken unguarded while C is guarded by its sign test and its
+discriminant (DESIGN §7 F9).  If both the guard of C and the (untested) guard of
+D hold, both discriminants vanish and the candidates coincide; reflection
+symmetry therefore holds whenever the last branch is reached only with its
+guard true. -/
 
-/-- on the given data: if cases A and B of `ducowicz` fail, exactly one of the
-guard of case C (`u* ≥ umin, umax`) and the guard the source does not test
-before taking case D (`u* ≤ umin, umax`) holds -/
-def DucoCDExclusive (sqrt : K → K) (pow : K → K → K) (rhol rhor pl pr ul ur gamma : K) : Prop :=
+/-- what `reflect_ducowicz_partial` assumes about `sqrt` -/
+def SqrtZero (sqrt : K → K) : Prop := sqrt 0 = 0
+
+/-- on the given data: if the guarded cases A, B, C of `ducowicz` all fail, the
+guard the source does not test before taking case D (its discriminant is
+non-negative and `u* ≤ umin, umax`: the mirror image of the guard of C) holds -/
+def DucoLastBranchGuarded (sqrt : K → K) (pow : K → K → K) (rhol rhor pl pr ul ur gamma : K) : Prop :=
   let o := fieldOps sqrt pow
   let bl := rhol * (1 / 2 * (gamma + 1))
   let br := rhor * (1 / 2 * (gamma + 1))
@@ -414,14 +423,14 @@ def DucoCDExclusive (sqrt : K → K) (pow : K → K → K) (rhol rhor pl pr ul u
   let umax := ul + 1 / 2 * sqrt (gamma * pl * rhol) / (1 / 2 * (gamma + 1))
   ¬ ducoGA umin umax (ducoUA o bl br plmin prmin umin umax) →
   ¬ ducoGB umin umax (ducoUB o bl br plmin prmin umin umax) →
-  (ducoGC umin umax (ducoUC o bl br plmin prmin umin umax) ↔
-    ¬ ducoGD umin umax (ducoUD o bl br plmin prmin umin umax))
+  ¬ (0 ≤ ducoDC bl br plmin prmin umin umax ∧ ducoGC umin umax (ducoUC o bl br plmin prmin umin umax)) →
+  (0 ≤ ducoDD bl br plmin prmin umin umax ∧ ducoGD umin umax (ducoUD o bl br plmin prmin umin umax))
 
-/-- reflection symmetry of `ducowicz` on every state where the unguarded last
-branch is taken only when its (untested) guard holds and the guarded third
-branch only when that guard fails; no other hypothesis on the data or on `sqrt` -/
-theorem reflect_ducowicz_partial
-    (hex : DucoCDExclusive sqrt pow rhol rhor pl pr ul ur gamma) :
+/-- reflection symmetry of `ducowicz` on every admissible state on which the
+unguarded last branch is taken only when its (untested) guard holds -/
+theorem reflect_ducowicz_partial (hs0 : SqrtZero sqrt) (hrl : 0 < rhol) (hrr : 0 < rhor)
+    (hg : 0 < gamma)
+    (hcov : DucoLastBranchGuarded sqrt pow rhol rhor pl pr ul ur gamma) :
     ReflectSym (ducowicz (fieldOps sqrt pow)) rhol rhor pl pr ul ur gamma tol niter := by
   intro r0 r1
   rw [ducowicz_eq, ducowicz_eq]
@@ -431,15 +440,17 @@ theorem reflect_ducowicz_partial
   have e2 : -ur + 1 / 2 * sqrt (gamma * pr * rhor) / (1 / 2 * (gamma + 1))
       = -(ur - 1 / 2 * sqrt (gamma * pr * rhor) / (1 / 2 * (gamma + 1))) := by ring
   rw [e1, e2]
-  have h := ducoTail_mirror sqrt pow _ _ _ _ _ _ hex
+  have hbl : 0 < rhol * (1 / 2 * (gamma + 1)) := by positivity
+  have hbr : 0 < rhor * (1 / 2 * (gamma + 1)) := by positivity
+  have h := ducoTail_mirror sqrt pow _ _ _ _ _ _ hbl hbr hs0 hcov
   exact ⟨h.1, fun _ => h.2⟩
 
-/-- the unconditional statement.  It is FALSE as it stands: on the measure-zero
-set `umin = umax` (i.e. `ur - ul = (csl + csr)/(gamma + 1)`) with A and B failing,
-both guards hold and the two orientations take non-mirror branches; concrete
-double-precision input: `(rhol, rhor, pl, pr, ul, ur, gamma) = (1/4, 1/2, 1/2, 1/4, 0, 1/3, 2)`
-gives `(p*, u*) = (0.4028, 0.6478)` against `(0.3594, 0.1667)` for the mirror image
-(reported as a finding; the random oracle does not hit the set) -/
+/-- the unconditional statement.  What is missing is `DucoLastBranchGuarded`
+for all admissible data: "if the root of the two-shock pressure balance lies
+strictly between `umin` and `umax`, the root formula of case A (or B) passes its
+sign test".  It fails at least where that formula is `0/0`
+(`(br - bl)(b + prmin - plmin) = 0` with `c = dd`; Python raises
+`ZeroDivisionError` there), so the statement needs a genericity hypothesis. -/
 def ReflectSymDucowicz (sqrt : K → K) (pow : K → K → K) : Prop :=
   ∀ rhol rhor pl pr ul ur gamma tol : K, ∀ niter : Int,
     0 < rhol → 0 < rhor → 0 < pl → 0 < pr → 1 < gamma →
@@ -501,6 +512,124 @@ theorem galilean_exact (hs : SqrtPos sqrt) (hpp : PowPos pow) (hrl : 0 < rhol) (
       + 1 / sqrt (gamma * pr / rhor) := by positivity
   exact this.ne'
 
+/-- `pow 1 g = 1` -/
+def PowOne (pow : K → K → K) : Prop := ∀ g : K, pow 1 g = 1
+
+/-- equal states: the first Newton pass converges at `p* = p`.  `niter ≥ 2` because
+`exact` reports failure when the converging pass is the last one allowed
+(`if i == niter - 1`), `pow 1 g = 1` because the pressure function is evaluated at `p/p` -/
+theorem equal_states_exact (hs : SqrtPos sqrt) (h1 : PowOne pow) (hrho : 0 < rho) (hp : 0 < p)
+    (hg : 1 < gamma) (htol : 0 ≤ tol) (hn : 2 ≤ niter) :
+    EqualStates (exact (fieldOps sqrt pow)) rho p u gamma tol niter := by
+  intro r0 r1
+  rw [exact_eq]
+  simp only [fieldOps_sqrt]
+  have hg0 : 0 < gamma := by linarith
+  have hg1 : 0 < gamma - 1 := by linarith
+  have hc : 0 < sqrt (gamma * p / rho) := hs _ (by positivity)
+  have hg4 : 0 < 2 * (1 / (gamma - 1)) := by positivity
+  rw [exFrom_equal sqrt pow _ _ _ _ _ _ _ _ rho p u niter tol r0 r1 hc hg4 hp (h1 _) htol hn]
+  exact ⟨rfl, rfl, rfl⟩
+
+/-- equal states: the first pass of `van_leer` converges at `p* = p` (pressure not
+below the floor `smallp = 1e-25`, positive tolerance, at least one pass allowed) -/
+theorem equal_states_van_leer (hrho : 0 ≤ rho) (hp : vlSmallp ≤ p) (htol : 0 < tol) (hn : 1 ≤ niter) :
+    EqualStates (van_leer (fieldOps sqrt pow)) rho p u gamma tol niter := by
+  intro r0 r1
+  rw [van_leer_eq]
+  have hp0 : 0 < p := lt_of_lt_of_le vlSmallp_pos hp
+  have hneg : ¬ (rho < 0 ∨ rho < 0 ∨ p < 0 ∨ p < 0) := by
+    rintro (h | h | h | h) <;> linarith
+  rw [if_neg hneg]
+  simp only [fieldOps_sqrt]
+  rw [vlFrom_equal sqrt pow _ rho p u gamma niter tol vlSmallp hp htol hn]
+  exact ⟨rfl, rfl, rfl⟩
+
+/-- a successful `van_leer` returns a positive pressure: every pass floors `p*`
+at `smallp > 0` and success needs at least one pass.  No hypothesis on the data. -/
+theorem success_imp_pos_van_leer (r0 r1 : K) :
+    (van_leer (fieldOps sqrt pow) rhol rhor pl pr ul ur gamma niter tol r0 r1).code = 0 →
+      0 < (van_leer (fieldOps sqrt pow) rhol rhor pl pr ul ur gamma niter tol r0 r1).r0 := by
+  rw [van_leer_eq]
+  by_cases hneg : (rhol < 0 ∨ rhor < 0 ∨ pl < 0 ∨ pr < 0)
+  · rw [if_pos hneg]; intro h; simp at h
+  · rw [if_neg hneg]
+    intro h
+    exact lt_of_lt_of_le vlSmallp_pos (vlFrom_success_floor _ _ _ _ _ _ _ _ _ _ _ _ _ h)
+
+/-! ## scaling of pressures and densities by a common factor -/
+
+/-- scaling invariance of one solver at one state: multiplying pressures and
+densities by `l` keeps the return code and, on success, multiplies `p*` by `l`
+and keeps `u*` -/
+def ScalingInv (f : Solver K) (rhol rhor pl pr ul ur gamma tol : K) (niter : Int) (l : K) : Prop :=
+  ∀ r0 r1 : K,
+    (f (l * rhol) (l * rhor) (l * pl) (l * pr) ul ur gamma niter tol r0 r1).code
+      = (f rhol rhor pl pr ul ur gamma niter tol r0 r1).code ∧
+    ((f rhol rhor pl pr ul ur gamma niter tol r0 r1).code = 0 →
+      (f (l * rhol) (l * rhor) (l * pl) (l * pr) ul ur gamma niter tol r0 r1).r0
+        = l * (f rhol rhor pl pr ul ur gamma niter tol r0 r1).r0 ∧
+      (f (l * rhol) (l * rhor) (l * pl) (l * pr) ul ur gamma niter tol r0 r1).r1
+        = (f rhol rhor pl pr ul ur gamma niter tol r0 r1).r1)
+
+/-- `exact` scales exactly, for every state, iteration limit and tolerance.  Only
+`SqrtScales` (`sqrt (m² x) = m sqrt x`, `m > 0`) is used, in the shock branch of the
+pressure function and the two-shock starting guess; `pow` only sees pressure ratios -/
+theorem scaling_exact (l : K) (hs : SqrtScales sqrt) (hl : 0 < l) :
+    ScalingInv (exact (fieldOps sqrt pow)) rhol rhor pl pr ul ur gamma tol niter l := by
+  intro r0 r1
+  rw [exact_eq, exact_eq]
+  simp only [fieldOps_sqrt]
+  have e1 : gamma * (l * pl) / (l * rhol) = gamma * pl / rhol := by
+    rw [show gamma * (l * pl) = l * (gamma * pl) by ring, mul_div_mul_left _ _ hl.ne']
+  have e2 : gamma * (l * pr) / (l * rhor) = gamma * pr / rhor := by
+    rw [show gamma * (l * pr) = l * (gamma * pr) by ring, mul_div_mul_left _ _ hl.ne']
+  rw [e1, e2]
+  exact exFrom_scale sqrt pow hs hl _ _ _ _ _ _ _ _ _ rhol rhor pl pr ul ur niter tol r0 r1
+
+/-- the pressure floor `smallp = 1e-25` of `van_leer` is never applied on the run
+from the given data, nor would the floor `smallp / l` be: the starting guess and
+every Newton update are at least `max smallp (smallp / l)`.  (The floor is an
+absolute pressure, so it is the one thing in `van_leer` that does not scale.) -/
+def VanLeerFloorInactive (sqrt : K → K) (pow : K → K → K) (rhol rhor pl pr ul ur gamma tol : K)
+    (niter : Int) (l : K) : Prop :=
+  vlFloorInactive (fieldOps sqrt pow) (sqrt (gamma * pl * rhol)) (sqrt (gamma * pr * rhor))
+    rhol rhor pl pr ul ur gamma niter tol vlSmallp (l⁻¹ * vlSmallp)
+
+theorem scaling_van_leer (l : K) (hs : SqrtScales sqrt) (hl : 0 < l) (hrl : 0 ≤ rhol)
+    (hrr : 0 ≤ rhor) (hpl : 0 ≤ pl) (hpr : 0 ≤ pr)
+    (hf : VanLeerFloorInactive sqrt pow rhol rhor pl pr ul ur gamma tol niter l) :
+    ScalingInv (van_leer (fieldOps sqrt pow)) rhol rhor pl pr ul ur gamma tol niter l := by
+  intro r0 r1
+  rw [van_leer_eq, van_leer_eq]
+  have hneg : ¬ (rhol < 0 ∨ rhor < 0 ∨ pl < 0 ∨ pr < 0) := by
+    rintro (h | h | h | h) <;> linarith
+  have hneg' : ¬ (l * rhol < 0 ∨ l * rhor < 0 ∨ l * pl < 0 ∨ l * pr < 0) := by
+    rintro (h | h | h | h) <;> nlinarith
+  rw [if_neg hneg, if_neg hneg']
+  simp only [fieldOps_sqrt]
+  have e1 : sqrt (gamma * (l * pl) * (l * rhol)) = l * sqrt (gamma * pl * rhol) := by
+    rw [show gamma * (l * pl) * (l * rhol) = l * l * (gamma * pl * rhol) by ring]; exact hs _ _ hl
+  have e2 : sqrt (gamma * (l * pr) * (l * rhor)) = l * sqrt (gamma * pr * rhor) := by
+    rw [show gamma * (l * pr) * (l * rhor) = l * l * (gamma * pr * rhor) by ring]; exact hs _ _ hl
+  rw [e1, e2]
+  have h := vlFrom_scale sqrt pow hl _ _ rhol rhor pl pr ul ur gamma niter tol vlSmallp hf
+  exact ⟨h.1, fun _ => h.2⟩
+
+/-! ## stated, not proved
+
+* `ReflectSymDucowicz` (above): needs `DucoLastBranchGuarded` for all admissible data.
+* `SuccessImpPosExact`: `exact` has no pressure floor; a Newton iterate may become
+  negative without leaving the loop, and for `niter ≤ 0` the loop does not run and
+  `exact` returns code 0 with `p* = 0`.  Checked on the real code (`niter ≥ 2`) only. -/
+
+/-- success of `exact` implies a positive star pressure (not proved; false for `niter ≤ 0`) -/
+def SuccessImpPosExact (sqrt : K → K) (pow : K → K → K) : Prop :=
+  ∀ rhol rhor pl pr ul ur gamma tol r0 r1 : K, ∀ niter : Int,
+    0 < rhol → 0 < rhor → 0 < pl → 0 < pr → 1 < gamma → 0 < tol → 2 ≤ niter →
+    (exact (fieldOps sqrt pow) rhol rhor pl pr ul ur gamma niter tol r0 r1).code = 0 →
+      0 < (exact (fieldOps sqrt pow) rhol rhor pl pr ul ur gamma niter tol r0 r1).r0
+
 end
 
 /-! ## non-vacuity: the hypotheses are satisfiable, the statements say something -/
@@ -520,4 +649,20 @@ example : (non_diffusive (fieldOps (fun x : K => x) (fun x _ => x)) 1 (1 / 8) 1 
 /-- a vacuum-generating state exists for `vacuum_reported_exact` (`sqrt := id`) -/
 example : 2 * (1 / ((7 / 5 : K) - 1)) * ((7 / 5 * 1 / 1) + (7 / 5 * 1 / 1)) ≤ 20 - (-20) := by
   norm_num
+
+/-- the hypotheses on the abstract operations are jointly satisfiable: the real
+square root and the real power function meet all of them -/
+example : SqrtPos Real.sqrt ∧ SqrtScales Real.sqrt ∧ SqrtMulSelf Real.sqrt ∧ SqrtZero Real.sqrt :=
+  ⟨fun _ h => Real.sqrt_pos.mpr h,
+   fun m x hm => by rw [Real.sqrt_mul (mul_self_nonneg m), Real.sqrt_mul_self hm.le],
+   fun _ h => Real.sqrt_mul_self h, Real.sqrt_zero⟩
+
+example : PowPos (fun x g : ℝ => x ^ g) ∧ PowInv (fun x g : ℝ => x ^ g) ∧ PowOne (fun x g : ℝ => x ^ g) :=
+  ⟨fun _ g h => Real.rpow_pos_of_pos h g, fun _ g h => Real.inv_rpow h.le g, fun g => Real.one_rpow g⟩
+
+/-- `DucoLastBranchGuarded` holds e.g. wherever case A succeeds (equal states, `sqrt := id`-like
+data are covered by `equal_states_ducowicz`); `VanLeerFloorInactive` holds e.g. for unit data
+with no pass allowed (`sqrt := 1`), where it says `smallp ≤ 1` and `smallp / 2 ≤ 1` -/
+example : VanLeerFloorInactive (fun _ : K => 1) (fun x _ => x) 1 1 1 1 0 0 (7 / 5) (1 / 1000) 0 2 := by
+  refine ⟨⟨?_, ?_⟩, trivial⟩ <;> (unfold vlSmallp; norm_num)
 end PysphVerif.C15
